@@ -13,8 +13,8 @@ from .common import all_demes, flat, gb, same_float, strictly_better
 from .c18 import rng_state_digest
 
 PROP = "C20"
-N_QUICK = 2000
-N_THOROUGH = 40000
+N_QUICK = 4000
+N_THOROUGH = 100000
 RULE = ("summary() and tree() are parsed at every boundary and compared with public state; at plan-chosen consults "
         "(also mid-metaepoch) a random subset of {summary, tree, best_individual, all_individuals, r5s_solutions, "
         "per-deme best / best_current / centroid / best_fitness_by_metaepoch} is called twice (observer interference "
@@ -50,6 +50,8 @@ def gen(seed, tier):
     pl["probes"] = probes
     if pl["objective"]["kind"] in ("stair", "abszero", "constant") and r.random() < 0.8:
         pl["objective"]["offset"] = 0.0  # best value exactly 0.0 reachable
+    if "levels" in pl and seed % 7 == 0:
+        P.nan_stratum(pl, seed)  # stored individuals with NaN fitness: looking must still not evaluate anything
     return pl
 
 
@@ -224,7 +226,8 @@ class C20Monitor(Monitor):
                              {"deme": d.id, "deme_best": float(db.fitness), "global_best": float(gbest)})
 
     def on_boundary(self, tree):
-        self._reports(tree)
+        if not self.w.plan.get("nan_stratum"):
+            self._reports(tree)
 
     # ------------------------------------------------------------------ observers
     def _call(self, tree, name):
@@ -262,11 +265,15 @@ class C20Monitor(Monitor):
         for name in acc:
             before = (tree_digest(tree), w.n_invocations, [d.n_evaluations for d in all_demes(tree)],
                       rng_state_digest(), private_state(tree))
+            nan_st = (np.random.get_state(), _random.getstate()) if w.plan.get("nan_stratum") else None
             try:
                 a = self._call(tree, name)
                 mid = private_state(tree)
                 b = self._call(tree, name)
             except Exception as e:
+                if nan_st is not None:
+                    np.random.set_state(nan_st[0])
+                    _random.setstate(nan_st[1])
                 if name in ("summary", "tree"):
                     self.violate("report-raised/" + name, {"error": repr(e)[:300], "site": site})
                 else:
@@ -279,6 +286,15 @@ class C20Monitor(Monitor):
                 self.violate("accessor-invoked-objective/" + name, {"site": site})
             if after[0] != before[0] or after[2] != before[2]:
                 self.violate("accessor-changed-tree/" + name, {"site": site})
+            if nan_st is not None:
+                # (the observer's own coin flips are taken back so that the probe-free twin stays comparable)
+                np.random.set_state(nan_st[0])
+                _random.setstate(nan_st[1])
+            if w.plan.get("nan_stratum"):
+                # with NaN fitness ties a comparison is a documented coin flip on the global `random` generator:
+                # RNG neutrality and equality of two answers are not judged in this stratum, invocations are
+                w.probe("c20-nan-stratum-probes")
+                continue
             if after[3] != before[3]:
                 self.violate("accessor-changed-rng/" + name, {"site": site})
             if after[4] != before[4]:
